@@ -392,6 +392,13 @@ def far_and_scaled_stream(ctx, n):
             base = call_impl(lambda: g.Conic(M).intersect(E))
             if base[0] != "ok":
                 continue
+            bp = [np.asarray(x.array) for x in base[1]]
+            if any(proj_close_nn(bp[i], bp[j], 1e-3) for i in range(len(bp)) for j in range(i)):
+                # the two conics touch (e.g. the circle of radius 3 and the ellipse with semi-axis 3 about the same centre): a common
+                # point of multiplicity two moves by sqrt(rounding error) under any perturbation, so "the same points to 1e-5" is not
+                # what the statement promises there; only simple common points are compared
+                ctx.count("scaled:conic-conic:skipped-tangent")
+                continue
             A, B = (g.Conic(lam * M), E) if which == "receiver" else (g.Conic(M), type(E)(lam * np.asarray(E.array)) if False else g.Conic(lam * np.asarray(E.array)))
             desc = f"conic diag{np.diag(M).tolist()} x ellipse {np.round(np.asarray(E.array), 4).tolist()}, {which} scaled by {lam}"
             ctx.case(desc)
